@@ -64,6 +64,21 @@ func (x *Exec) summary(s *State, name string, fn *ssa.Function, args []*Val, res
 		return ret(&Val{T: B, S: and(not(eq(a, "0")), or(eq(a, b), sx("errIs", a, b)))})
 	case "github.com/cosmos/cosmos-sdk/types.UnwrapSDKContext":
 		return ret(&Val{T: resT, Tag: &Tag{Kind: tagCtx}})
+	case "github.com/kelindar/bitmap.FromBytes":
+		// A-bitmap: the bitmap is a view of the byte string; panics unless the length is a multiple of 8
+		x.bitmapDecls()
+		b := x.termOf(s, args[0])
+		x.panicIf(s, not(eq(sx("mod", sx("blen", b), "8"), "0")), "bitmap_length")
+		bm := x.fresh(s, "bitmap", x.c.sortOf(resT))
+		s.assume(eq(sx("bmsrc", bm), b))
+		return ret(&Val{T: resT, S: bm})
+	case "(github.com/kelindar/bitmap.Bitmap).Count":
+		x.bitmapDecls()
+		r := sx("bitcount", sx("bmsrc", x.termOf(s, args[0])))
+		return ret(&Val{T: resT, S: r})
+	case "(github.com/kelindar/bitmap.Bitmap).Contains":
+		x.bitmapDecls()
+		return ret(&Val{T: B, S: sx("bitat", sx("bmsrc", x.termOf(s, args[0])), args[1].S)})
 	case "math.Ceil":
 		return ret(&Val{T: resT, S: sx("fp.roundToIntegral", "RTP", args[0].S)})
 	case "(*bytes.Reader).Len":
@@ -143,4 +158,24 @@ func (x *Exec) ctxMethod(s *State, m string, args []*Val, resT types.Type) *Val 
 		return nil
 	}
 	return nil
+}
+
+func (x *Exec) bitmapDecls() {
+	srt := x.c.slcSort("Int")
+	x.c.P.declare("bmsrc", fmt.Sprintf("(declare-fun bmsrc (%s) Bytes)", srt))
+	declBitFuns(x.c)
+}
+
+// bit-string functions shared by the bitmap summary and the contracts of C01:
+// bitat(b, p): bit p of b (little-endian words); countTo(b, n): number of set bits at positions < n;
+// bitcount(b): number of set bits.
+func declBitFuns(c *Ctx) {
+	c.P.declare("bitat", "(declare-fun bitat (Bytes Int) Bool)")
+	c.P.axiom("bitfuns", []string{"bitat", "countTo", "bitcount"},
+		"(assert (forall ((b Bytes) (p Int)) (! (=> (bitat b p) (and (<= 0 p) (< p (* 8 (blen b))))) :pattern ((bitat b p)))))\n"+
+			"(define-fun-rec countTo ((b Bytes) (n Int)) Int (ite (<= n 0) 0 (+ (countTo b (- n 1)) (ite (bitat b (- n 1)) 1 0))))\n"+
+			// bitcount(b) is by definition countTo(b, 8*len(b)); the definition is not needed by any proof and is kept
+			// out of the queries (unfolding it at a symbolic length sends the solvers into unbounded recursion).
+			"(declare-fun bitcount (Bytes) Int)\n"+
+			"(assert (forall ((b Bytes)) (! (and (<= 0 (bitcount b)) (<= (bitcount b) (* 8 (blen b)))) :pattern ((bitcount b)))))")
 }
